@@ -157,6 +157,11 @@ def search_preamble(ctx):
     return False
 
 
+# the three preamble axioms from which, with the symbol_order chain, distinctness of constants is PROVABLE
+# (premises of C12_distinct in Properties/C12.v)
+DISTINCTNESS_AXIOMS = ("p__less__def_ax", "transitive_ordering_ax", "antisymmetric_ordering_ax")
+
+
 def check_preamble_pin(ctx, cfg, proved=True):
     """audit B8: the regenerated preamble against the list pinned in props/C12.json (`preamble_pin`:
     names + content hashes of declarations and axioms).  Both sides of every check regenerate from
@@ -185,7 +190,10 @@ def check_preamble_pin(ctx, cfg, proved=True):
     parts = []
     for kind, what, name in diff:
         one = what[:-1]
-        if kind == "removed":
+        if kind == "removed" and name in DISTINCTNESS_AXIOMS:
+            parts.append(f"{one} {name} REMOVED (needed by C12_distinct - 'any two distinct constants are provably distinct': "
+                         "Properties/C12.v names it, the build breaks)")
+        elif kind == "removed":
             parts.append(f"{one} {name} REMOVED (not a C12 violation: only truth of the emitted axioms is required)")
         elif kind == "reordered":
             parts.append(f"{what} reordered")
